@@ -25,10 +25,11 @@ rule = ("scripts = 'a handles n', a set-up building typed buffers whose element 
         "pool x 4 set-ups x 4 schedules, all triples of a small pool x 2 set-ups x 2 schedules; stream 2: random "
         "histories of length 25 over 3 handles; stream 3: destructor-only element type (f8, as reference_array<T>) in "
         "BufferNoCopy buffers of 1..30 elements (past the first allocation or not), shared or not, every op of a pool on "
-        "either handle, pairs for 9 and 12 elements — BufferNoCopy has to survive every re-allocation and such content is "
+        "either handle (incl. cut, slice-extend, set without data, insert behind the end: re-exposed elements must be "
+        "empty), all pairs for 4 and 9 elements — BufferNoCopy has to survive every re-allocation and such content is "
         "never duplicated while shared. Third part (harness/drv_refs.c, 'r' lines): the library's own element traits — "
         "arrays of arrays (mpt_array_traits: wrap, push, take an own/other child as new content, set from source "
-        "elements, cut, detach, clone, drop) and arrays of metatype references (mpt_meta_reference_traits with sharable "
+        "elements, assignment of an element to itself, cut, detach, clone, drop) and arrays of metatype references (mpt_meta_reference_traits with sharable "
         "and single-owner harness instances) plus leaf token arrays: 8 set-ups x 37 ops, all pairs (quick: every third "
         "second op), random histories over 4 handles; after every op the harness checks that buffer and instance "
         "reference counts equal the references that exist, every live token is stored once, nothing is released twice, "
